@@ -2,6 +2,7 @@
 package main
 
 import (
+	"bytes"
 	"context"
 	"fmt"
 	"strings"
@@ -177,10 +178,11 @@ func history(r *ev.Run, c *ev.Case, hi int, slowCA ...time.Duration) {
 		nruns, slowLeft = 4+rng.Intn(3), 0
 	}
 	var trace []runRec
+	var otherAdded *gen.Key
 	prevGen := map[string]bool{} // certificate blobs of the latest successful generation
 	sigParts := []string{fmt.Sprint(validity)}
 	for run := 0; run < nruns; run++ {
-		outcome := []string{"ok", "ok", "ok", "ca-error", "ca-panic", "agent-failure", "agent-close", "unconfigured-ca-algorithm"}[rng.Intn(8)]
+		outcome := []string{"ok", "ok", "ok", "ca-error", "ca-panic", "agent-failure", "agent-close", "unconfigured-ca-algorithm", "ok", "delivery-refused-beside-another-client"}[rng.Intn(10)]
 		if lapse && run < 3 {
 			outcome = "ok"
 		}
@@ -197,6 +199,29 @@ func history(r *ev.Run, c *ev.Case, hi int, slowCA ...time.Duration) {
 			signer.Fault = map[int]string{0: "error"}
 		case "ca-panic":
 			signer.Fault = map[int]string{0: "panic"}
+		case "delivery-refused-beside-another-client":
+			// the agent takes the first certificate and refuses the second; in between, another client of the same agent
+			// (the requester's own ssh-add) adds an identity of its own. Whatever the RA does about the failed hand-over,
+			// that identity is not the RA's.
+			if signer.NCerts < 2 {
+				signer.NCerts = 2
+			}
+			signer.NonCert = false
+			seenCertAdds := 0
+			other := gen.FreshKey(rng)
+			ag.SetPlan(func(idx int, req []byte) wire.Action {
+				if len(req) > 5 && (req[0] == 17 || req[0] == 25) && bytes.Contains(req[:min(len(req), 80)], []byte("-cert-v01@openssh.com")) {
+					seenCertAdds++
+					if seenCertAdds == 1 {
+						ag.Keyring.Add(agent.AddedKey{PrivateKey: other.Priv, Comment: "added by the requester meanwhile"})
+						otherAdded = other
+					}
+					if seenCertAdds == 2 {
+						return wire.Action{Kind: wire.Failure}
+					}
+				}
+				return wire.Action{Kind: wire.Honest}
+			})
 		case "agent-failure", "agent-close":
 			// a fault before or during signing: request indices 0 (challenge) and 1 (new private key)
 			faultIdx = rng.Intn(2)
@@ -268,6 +293,10 @@ func history(r *ev.Run, c *ev.Case, hi int, slowCA ...time.Duration) {
 			bad(gsrig.EscapeSig(escaped), escaped)
 			return
 		}
+		if otherAdded != nil {
+			foreign[string(otherAdded.Pub.Marshal())] = ident{Comment: "added by the requester meanwhile"}
+			otherAdded = nil
+		}
 		// foreign identities are never removed or altered
 		for b, id := range foreign {
 			a, ok := after[b]
@@ -301,6 +330,12 @@ func history(r *ev.Run, c *ev.Case, hi int, slowCA ...time.Duration) {
 				bad("certificate-added-without-private-key", "")
 				return
 			}
+		}
+		if outcome == "delivery-refused-beside-another-client" {
+			r.Count("hand-overs refused half way while another client added an identity of its own: that identity stays", 1)
+			sigParts = append(sigParts, "delivery-refused")
+			r.Nontrivial(strings.Join(sigParts, ","))
+			return // what is left of the handler's own generations after a refused hand-over is not this check's business
 		}
 		if outcome != "ok" {
 			if runErr == nil {
